@@ -314,6 +314,21 @@ def check_random(env, acc):
             acc.state("rand", N, sd)
         if N >= 2 and np.array_equal(us[0], us[1]) and np.array_equal(us[1], us[2]):
             acc.tick("different_seeds_same_unitary")
+    # seeds that are whole numbers without being Python ints: documented as converted, so they seed like the int
+    from fractions import Fraction
+    for sd in (7.0, np.float64(11.0), Fraction(5, 1), np.int64(3), np.uint8(4), np.int32(0)):
+        for N in (1, 3, 4):
+            acc.tick("executions", 2); acc.tick("transitions", 2)
+            case = {"N": N, "random_seed": repr(sd), "seed": env.seed}
+            try:
+                same = np.array_equal(lw.random_unitary(N, seed=sd), lw.random_unitary(N, seed=int(sd))) and \
+                    np.array_equal(lw.random_permutation(N, seed=sd), lw.random_permutation(N, seed=int(sd)))
+            except Exception as e:  # noqa: BLE001
+                acc.violation("integral_seed_refused", case, {"error": repr(e)})
+                continue
+            if not same:
+                acc.violation("seeded_generator_not_reproducible", case, None)
+            acc.state("rand-seedtype", N, repr(sd))
     for bad in (1.5, "a", True):
         try:
             lw.random_unitary(2, seed=bad)
